@@ -363,8 +363,12 @@ def find_def(tree, qual):
     node = None
     for p in parts:
         node = None
+        # "name@setter": the definition of that name decorated with `@<...>.setter` (a property's setter shares its getter's name)
+        p, _, deco = p.partition("@")
         for n in body:
             if isinstance(n, (ast.ClassDef, ast.FunctionDef, ast.AsyncFunctionDef)) and n.name == p:
+                if deco and not any(ast.unparse(d).split(".")[-1] == deco for d in getattr(n, "decorator_list", [])):
+                    continue
                 node = n
                 break
         if node is None:
@@ -505,8 +509,9 @@ def locate(fn, loc):
     if kind == "has_call":
         # ("has_call", callee suffix): does the function contain, outside any nested function, a call whose callee text ends
         # with the suffix?  -> a boolean constant (e.g. "the close path cancels the timer")
-        hit = any(isinstance(n, ast.Call) and ast.unparse(n.func).endswith(loc[1]) for n in ast.walk(fn))
-        return ast.copy_location(ast.Constant(value=bool(hit)), fn)
+        # ("has_call", callee suffix, min_count): ... at least min_count such calls (e.g. "both queues are purged")
+        hits = [n for n in ast.walk(fn) if isinstance(n, ast.Call) and ast.unparse(n.func).endswith(loc[1])]
+        return ast.copy_location(ast.Constant(value=len(hits) >= (loc[2] if len(loc) > 2 else 1)), fn)
     if kind == "body_empty":
         # ("body_empty",): the function does nothing (docstring / `pass` / `return` only)  -> a boolean constant
         body = [x for x in strip_doc(fn.body) if not isinstance(x, ast.Pass) and not (isinstance(x, ast.Return) and x.value is None)]
@@ -521,8 +526,8 @@ def locate(fn, loc):
         c = hits[loc[3]]
         return ast.copy_location(ast.Constant(value=any(ast.unparse(a) == loc[2] for a in c.args)), c)
     if kind == "compif":
-        # first `if` condition of the nth list/set comprehension or generator in the function
-        comps = [n for n in ast.walk(fn) if isinstance(n, (ast.ListComp, ast.SetComp, ast.GeneratorExp))]
+        # first `if` condition of the nth list/set/dict comprehension or generator in the function
+        comps = [n for n in ast.walk(fn) if isinstance(n, (ast.ListComp, ast.SetComp, ast.DictComp, ast.GeneratorExp))]
         comps = [c for c in comps if c.generators and c.generators[0].ifs]
         if len(comps) <= loc[1]:
             raise Fail("%s: no filtered comprehension #%d" % (fn.name, loc[1]), fn)
@@ -603,11 +608,39 @@ def locate(fn, loc):
                         if loc[1] in names:
                             hits.append(h)
         return ast.copy_location(ast.Constant(len(hits) >= 1), fn)
+    if kind == "has_stmt":
+        # ("has_stmt", statement source): does the function contain (anywhere, nested blocks included, nested functions
+        # excluded) a statement whose `ast.unparse` text is exactly this?  -> a boolean constant (e.g. `self._loop_thread = None`)
+        want = ast.unparse(ast.parse(loc[1]).body[0])
+        inner = {id(x) for n in ast.walk(fn) if n is not fn and isinstance(n, (ast.FunctionDef, ast.AsyncFunctionDef, ast.Lambda)) for x in ast.walk(n)}
+        hit = any(isinstance(n, ast.stmt) and id(n) not in inner and ast.unparse(n) == want for n in ast.walk(fn))
+        return ast.copy_location(ast.Constant(value=bool(hit)), fn)
     if kind == "has_identity_test":
         # ("has_identity_test",): does the function compare objects with `is` / `is not` (other than against None)?
         hits = [n for n in ast.walk(fn) if isinstance(n, ast.Compare) and any(isinstance(o, (ast.Is, ast.IsNot)) for o in n.ops)
                 and not all(isinstance(c, ast.Constant) and c.value is None for c in n.comparators)]
         return ast.copy_location(ast.Constant(len(hits) >= 1), fn)
+    if kind == "for_iter_of":
+        # ("for_iter_of", loop variable, nth): the iterable of the nth (source order) `for <loop variable> in <expr>`
+        hits = sorted((n for n in ast.walk(fn) if isinstance(n, ast.For) and ast.unparse(n.target) == loc[1]), key=lambda n: (n.lineno, n.col_offset))
+        if len(hits) <= loc[2]:
+            raise Fail("%s: no `for %s in …` loop #%d" % (fn.name, loc[1], loc[2]), fn)
+        return hits[loc[2]].iter
+    if kind == "census":
+        # ("census",): a *statement census* of the whole function -- how many statements of each kind it contains and the
+        # source text of every assignment target, in source order.  A shape pin (rty "src") on it makes an ADDED statement
+        # (a new `if … raise`, a `break`, a second assignment, a rebinding) visible, which per-statement pins cannot.
+        kinds = {}
+        targets = []
+        for n in ast.walk(fn):
+            if isinstance(n, ast.stmt) and n is not fn and not (isinstance(n, ast.Expr) and isinstance(n.value, ast.Constant)):
+                k = type(n).__name__
+                kinds[k] = kinds.get(k, 0) + 1
+            if isinstance(n, (ast.Assign, ast.AugAssign, ast.AnnAssign)):
+                for t in (n.targets if isinstance(n, ast.Assign) else [n.target]):
+                    targets.append(((n.lineno, n.col_offset), ast.unparse(t) + ("+" if isinstance(n, ast.AugAssign) else "")))
+        text = " ".join("%s:%d" % kv for kv in sorted(kinds.items())) + " | " + " ".join(t for _, t in sorted(targets))
+        return ast.copy_location(ast.Constant(text), fn)
     if kind == "range_arg":
         # ("range_arg", nth): the single argument of the nth `for ... in range(<expr>)`
         hits = [n for n in ast.walk(fn) if isinstance(n, ast.For) and isinstance(n.iter, ast.Call)
@@ -636,6 +669,55 @@ def locate(fn, loc):
             raise Fail("%s: no parameter %s" % (fn.name, loc[1]), fn)
         d = defaults.get(loc[1])
         return ast.copy_location(ast.Constant(d is not None and isinstance(d, ast.Constant) and d.value is None), fn)
+    if kind == "call":
+        # ("call", callee suffix, nth): the nth (source order) call whose callee text ends with the suffix, as a whole
+        # expression -- for shape pins of call sites ("which arguments, in which order")
+        hits = sorted((n for n in ast.walk(fn) if isinstance(n, ast.Call) and ast.unparse(n.func).endswith(loc[1])),
+                      key=lambda n: (n.lineno, n.col_offset))
+        if len(hits) <= loc[2]:
+            raise Fail("%s: no call #%d to %s" % (fn.name, loc[2], loc[1]), fn)
+        return hits[loc[2]]
+    if kind == "ifexp_test":
+        # ("ifexp_test", target, nth): the test of the conditional expression `a if <test> else b` assigned to `target`
+        v = assign_value(fn, loc[1], loc[2])
+        if not isinstance(v, ast.IfExp):
+            raise Fail("%s: %s is no longer assigned a conditional expression (it is `%s`)" % (fn.name, loc[1], ast.unparse(v)), v)
+        return v.test
+    if kind == "if_assigning":
+        # ("if_assigning", target, nth): the test of the nth (source order) `if` statement whose body assigns `target` --
+        # "the guard under which X is set", whatever the guard mentions
+        def assigns(n):
+            for st in n.body:
+                for x in ast.walk(st):
+                    if isinstance(x, ast.Assign) and any(ast.unparse(t) == loc[1] for t in x.targets):
+                        return True
+                    if isinstance(x, ast.AnnAssign) and ast.unparse(x.target) == loc[1] and x.value is not None:
+                        return True
+            return False
+        hits = sorted((n for n in ast.walk(fn) if isinstance(n, ast.If) and assigns(n)), key=lambda n: (n.lineno, n.col_offset))
+        if len(hits) <= loc[2]:
+            raise Fail("%s: no `if` statement #%d assigning %s" % (fn.name, loc[2], loc[1]), fn)
+        return hits[loc[2]].test
+    if kind == "signature":
+        # ("signature",): the parameter list with annotations and defaults, for shape pins of default arguments
+        return fn.args
+    if kind == "for_iter":
+        # ("for_iter", nth): the iterable of the nth (source order) `for` statement
+        hits = sorted((n for n in ast.walk(fn) if isinstance(n, ast.For)), key=lambda n: (n.lineno, n.col_offset))
+        if len(hits) <= loc[1]:
+            raise Fail("%s: no `for` loop #%d" % (fn.name, loc[1]), fn)
+        return hits[loc[1]].iter
+    if kind == "arg_elt":
+        # ("arg_elt", callee suffix, argidx, nth, eltidx): one element of a tuple/list literal passed as an argument
+        # (nth call in source order), e.g. the port in `sendto(packet, (real_addr, port or _MDNS_PORT, *v6_flow_scope))`
+        hits = sorted((n for n in ast.walk(fn) if isinstance(n, ast.Call) and ast.unparse(n.func).endswith(loc[1])),
+                      key=lambda n: (n.lineno, n.col_offset))
+        if len(hits) <= loc[3]:
+            raise Fail("%s: no call #%d to %s" % (fn.name, loc[3], loc[1]), fn)
+        c = hits[loc[3]]
+        if len(c.args) <= loc[2] or not isinstance(c.args[loc[2]], (ast.Tuple, ast.List)) or len(c.args[loc[2]].elts) <= loc[4]:
+            raise Fail("%s: argument %d of %s is not a literal with %d elements" % (fn.name, loc[2], loc[1], loc[4] + 1), c)
+        return c.args[loc[2]].elts[loc[4]]
     raise Fail("bad locator %r" % (loc,))
 
 
@@ -660,6 +742,58 @@ def _field_name(x):
     if isinstance(x, ast.Name):
         return x.id
     raise Fail("unsupported identity field expression: " + ast.unparse(x), x)
+
+
+def ctor_shape_check(tree, cls):
+    """Fail closed on anything in `cls.__init__` (and `DNSEntry._set_class`) that the identity model does not read.
+
+    The model takes every identity attribute from the *one* assignment `self.x = <expr>` that `assign_value` finds.  That is
+    only sound if there is no second assignment to the attribute, if no constructor argument is rebound before it is stored
+    or hashed (`port = port & 0xFFFF`), if the base constructor receives the arguments unchanged, and if nothing else runs
+    in the constructor (an `if`, a loop, a call that could store attributes).  So the body must consist of exactly:
+    `super().__init__(<parameters, unchanged>)`, `self._set_class(class_)`, and `self.<attr> = <expr>` with each attribute
+    assigned once.  Classes may not define hooks that change attribute access or inequality."""
+    cdef = find_def(tree, cls)
+    for n in cdef.body:
+        if isinstance(n, (ast.FunctionDef, ast.AsyncFunctionDef)) and n.name in (
+                "__ne__", "__setattr__", "__getattr__", "__getattribute__", "__new__", "__init_subclass__", "__set_name__", "__delattr__"):
+            raise Fail("%s defines %s: attribute access / inequality is no longer the default the identity model assumes" % (cls, n.name), n)
+    fns = [cls + ".__init__"] + ([cls + "._set_class"] if cls == "DNSEntry" else [])
+    for q in fns:
+        fn = find_def(tree, q)
+        a = fn.args
+        params = [x.arg for x in a.posonlyargs + a.args + a.kwonlyargs] + ([a.vararg.arg] if a.vararg else []) + ([a.kwarg.arg] if a.kwarg else [])
+        seen = set()
+        for st in strip_doc(fn.body):
+            # no parameter (and no other local) may be bound anywhere in the constructor
+            for n in ast.walk(st):
+                if isinstance(n, ast.Name) and isinstance(n.ctx, (ast.Store, ast.Del)):
+                    raise Fail("%s: %s `%s` is (re)bound in the constructor before it is stored/hashed: `%s`"
+                               % (q, "constructor argument" if n.id in params else "local variable", n.id, ast.unparse(st)), st)
+            if isinstance(st, ast.Expr) and isinstance(st.value, ast.Call):
+                c = st.value
+                f = ast.unparse(c.func)
+                if f == "super().__init__" and q.endswith(".__init__"):
+                    bad = [ast.unparse(x) for x in c.args if not (isinstance(x, ast.Name) and x.id in params)] + \
+                          [k.arg or "**" for k in c.keywords if not (isinstance(k.value, ast.Name) and k.value.id == k.arg and k.arg in params)]
+                    if bad:
+                        raise Fail("%s: the base constructor no longer receives the arguments unchanged: %s" % (q, ", ".join(bad)), st)
+                    continue
+                if f == "self._set_class" and len(c.args) == 1 and not c.keywords and ast.unparse(c.args[0]) == "class_":
+                    continue
+                raise Fail("%s: statement `%s` is not one the identity model understands" % (q, ast.unparse(st)), st)
+            tgt = None
+            if isinstance(st, ast.Assign) and len(st.targets) == 1:
+                tgt = st.targets[0]
+            elif isinstance(st, ast.AnnAssign) and st.value is not None:
+                tgt = st.target
+            if tgt is not None and isinstance(tgt, ast.Attribute) and ast.unparse(tgt.value) == "self":
+                if tgt.attr in seen:
+                    raise Fail("%s: self.%s is assigned a second time: `%s` (the model reads the first assignment only)" % (q, tgt.attr, ast.unparse(st)), st)
+                seen.add(tgt.attr)
+                continue
+            raise Fail("%s: statement `%s` is not one the identity model understands (only super().__init__(...), "
+                       "self._set_class(class_) and single assignments self.<attr> = <expr>)" % (q, ast.unparse(st).split("\n")[0]), st)
 
 
 def ident_info(tree, cls):
@@ -922,7 +1056,8 @@ def gen(repo, outdir, selftest_out=None, failures=None):
                 # hand-modelled; the property's GenFacts states the expected text, so an edit breaks that proof only
                 by_mod.setdefault(mod, []).append(
                     "/-- `%s` (%s:%d), source text of the located expression -/\ndef %s : String :=\n  %s\n"
-                    % (qual, rel, getattr(e, "lineno", fn.lineno), lname, lean_str(ast.unparse(e))))
+                    % (qual, rel, getattr(e, "lineno", fn.lineno), lname,
+                       lean_str(e.value if loc[0] == "census" and isinstance(e, ast.Constant) else ast.unparse(e))))
                 continue
             tr = Tr(fenv, {p[0]: (p[1], p[2]) for p in params}, nat=opts.get("nat", False), file=rel)
             if rty == "bool":
@@ -992,6 +1127,8 @@ def gen(repo, outdir, selftest_out=None, failures=None):
                    "DNSPointer": rec_f | {"alias", "alias_key"}, "DNSText": rec_f | {"text"},
                    "DNSService": rec_f | {"priority", "weight", "port", "server", "server_key"},
                    "DNSNsec": rec_f | {"next_name", "rdtypes"}}
+        for cls in ["DNSEntry", "DNSRecord"] + IDENT_CLASSES:
+            ctor_shape_check(dns, cls)
         for cls in IDENT_CLASSES:
             info = ident_info(dns, cls)
             for lst in (info["hash"], info["eq"]):
